@@ -50,6 +50,16 @@ func genProgram(r *vc.Rand, single bool) Program {
 			p.Ops = append(p.Ops, Op{Kind: "arm", D: vc.Pick(r, durations)})
 		case x < 7:
 			p.Ops = append(p.Ops, Op{Kind: "stop"})
+		case x < 8 && single:
+			// several goroutines arm short timers on the same connection at once (Run racing the first
+			// message, an approval racing a hello); a sequential arm or stop follows at once, so the
+			// model knows the current timer again
+			p.Ops = append(p.Ops, Op{Kind: "carm", D: vc.Pick(r, durations[:3])})
+			if r.Bool() {
+				p.Ops = append(p.Ops, Op{Kind: "arm", D: vc.Pick(r, durations)})
+			} else {
+				p.Ops = append(p.Ops, Op{Kind: "stop"})
+			}
 		case x < 8:
 			p.Ops = append(p.Ops, Op{Kind: "yield"})
 		case x < 9 && single:
@@ -114,6 +124,19 @@ func runHook(t *testing.T, sc *Scenario) (out []obs, bubbleErr string) {
 						ep.Conn.VerifArmTimer(0, op.D)
 						due, armed = now()+op.D, true
 						tr("arm " + op.D.String())
+					case "carm":
+						var cwg sync.WaitGroup
+						for k := 0; k < 6; k++ {
+							cwg.Add(1)
+							go func() {
+								defer cwg.Done()
+								ep.Conn.VerifArmTimer(0, op.D)
+							}()
+						}
+						cwg.Wait()
+						// one of them is current now; the next op (arm or stop) replaces or stops it
+						due, armed = now()+op.D, true
+						tr("concurrent arm x6 " + op.D.String())
 					case "stop":
 						ep.Conn.VerifStopTimer()
 						armed = false
@@ -303,7 +326,16 @@ func TestEngine(t *testing.T) {
 			if o.Expected >= 0 {
 				cls = "delivery-expected"
 			}
-			col.Class(prop, fmt.Sprintf("hook:%s:conns=%d:procs=%d:zero-gap=%v:len=%d", cls, len(sc.Programs), sc.Procs, zeroGap, len(ops)))
+			conc := false
+			for _, op := range ops {
+				if op.Kind == "carm" {
+					conc = true
+				}
+			}
+			if conc {
+				col.Count(prop, "programs-with-concurrent-arming", 1)
+			}
+			col.Class(prop, fmt.Sprintf("hook:%s:conns=%d:procs=%d:zero-gap=%v:concurrent-arm=%v:len=%d", cls, len(sc.Programs), sc.Procs, zeroGap, conc, len(ops)))
 			wit := map[string]any{"scenario": sc, "program": i, "observation": o}
 			switch {
 			case o.Expected < 0 && len(o.Fired) > 0:
